@@ -206,7 +206,14 @@ def run(tier):
                 e2samples.append({'e2e': line, 'result': r[:260]})
         elif r.startswith('VIOL'):
             d = kv(r)
-            chk.violation(f"e2:{d.get('kind')}:{meta['mode']}:{meta['rate']}", f"real managed encode [{line}]: {d.get('detail')}", {'part': 'e2', 'case': line})
+            kind = d.get('kind', '')
+            if kind.startswith('limit_not_installed_'):
+                # a configured hard limit / reservoir never reached the rate manager
+                chk.violation(f"e2:limit_not_installed:{kind[len('limit_not_installed_'):]}", f"real managed encode [{line}]: {d.get('detail')}; run oracle against the configured limits: {d.get('run_oracle')} {d.get('run_detail', '')}", {'part': 'e2', 'case': line})
+                if d.get('run_oracle', 'none') != 'none':
+                    chk.violation(f"e2:{d['run_oracle']}:{meta['mode']}:{meta['rate']}", f"real managed encode [{line}] judged against the CONFIGURED limits: {d.get('run_detail')}", {'part': 'e2', 'case': line})
+            else:
+                chk.violation(f"e2:{kind}:{meta['mode']}:{meta['rate']}", f"real managed encode [{line}]: {d.get('detail')}", {'part': 'e2', 'case': line})
         elif r.startswith('cfgerr'):
             broken.append(line + ' -> ' + r)
         else:
